@@ -20,6 +20,7 @@ MISC = "pyxel/observation/misc.py"
 OBS = "pyxel/observation/observation.py"
 PV = "pyxel/observation/parameter_values.py"
 BOUNDED = {
+    r'expression text': 'parameters declared as the text numpy.arange(2, 8, 3): two symbolic values (eval is the boundary)',
     r'^(?!mode\.selection)': 'parameter spaces of 1..3 parameters with 1..3 values each and tables of 1..2 rows (symbolic values and enabled flags)',
 }      # unit-name / obligation-name patterns -> the family these obligations are proved for
 TRUSTED = ["shapes are bounded: 1..3 parameters, list lengths 1..3, 1..2 table rows (symbolic values, defaults and enabled flags inside each shape)",
